@@ -119,6 +119,7 @@ def gen_model(rng, which):
         return {'kind': which.split('-')[1], 'ops': c['ops'], 'pool': c['pool'], 'tol': 2e-5,
                 'dvars': [('y', c['d']), ('t', c['d'])], 'rvars': [(an, hi - lo) for an, lo, hi in c['arrays']],
                 'robust': ['cy0', 'ct0'], 'det_cons': [], 'ambs': ['F'] if which == 'combo-dro' else [],
+                'ldr': c['d'] if which == 'combo-ro' else 0,
                 'labels': c['labels'], 'S': c['S'], 'p': c['p']}
     if which == 'prog':
         from machines import peer
@@ -139,7 +140,7 @@ SOURCES = ['ro-sep', 'ro-sep', 'combo-dro', 'combo-dro', 'combo-ro', 'prog', 'lp
 MISUSE = ['cross_st', 'cross_add', 'cross_mul_rvar', 'cross_add_rvar', 'foreign_set_forall', 'foreign_amb_forall',
           'foreign_supp', 'foreign_expt', 'foreign_prob', 'foreign_amb_objective', 'second_objective', 'nonscalar_objective',
           'read_unsolved', 'read_failed', 'ambiguity_after_constraints', 'foreign_adapt', 'foreign_set_minmax',
-          'foreign_amb_forall_explin', 'foreign_amb_forall_exppw', 'cross_concat', 'concat_dvar_rvar']
+          'foreign_amb_forall_explin', 'foreign_amb_forall_exppw', 'cross_concat', 'concat_dvar_rvar', 'foreign_adapt_ldr']
 
 
 def gen_case(seed, cfg):
@@ -176,6 +177,8 @@ def gen_case(seed, cfg):
         st_ = state[i]
         if 'id' in op:
             st_['built'].add(op['id'])
+            if op['op'] == 'cons' and op['id'].endswith(('cy0', 'ct0')):
+                st_['y_used'] = True
         if op['op'] == 'obj':
             st_['obj'] = True
         if op['op'] == 'st':
@@ -211,6 +214,13 @@ def gen_case(seed, cfg):
                 break
             n_mis += 1
             ops.extend(mo)
+    # more misuse once every model is complete (objectives, constraints and ambiguity sets all exist)
+    while n_mis < max_mis:
+        mo = gen_misuse(rng, models, state)
+        if mo is None:
+            break
+        n_mis += 1
+        ops.extend(mo)
     return {'mode': mode, 'models': [{k: v for k, v in m.items() if k not in ('ops',)} for m in models], 'ops': ops, 'seed': seed}
 
 
@@ -225,14 +235,16 @@ def gen_misuse(rng, models, state):
     order = list(MISUSE)
     rng.shuffle(order)
     if rng.random() < 0.6:      # kinds with narrow preconditions first
-        rare = ['foreign_amb_forall', 'foreign_amb_forall_explin', 'foreign_amb_forall_exppw', 'foreign_set_forall', 'foreign_amb_objective', 'foreign_expt', 'foreign_prob',
+        rare = ['second_objective', 'foreign_adapt_ldr', 'foreign_amb_forall', 'foreign_amb_forall_explin', 'foreign_amb_forall_exppw', 'foreign_set_forall', 'foreign_amb_objective', 'foreign_expt', 'foreign_prob',
                 'foreign_supp', 'ambiguity_after_constraints', 'read_failed', 'foreign_adapt']
         rng.shuffle(rare)
         order = rare + [k for k in order if k not in rare]
-    for kind in order:
-        pairs = [(a, b) for a in range(nm) for b in range(nm) if a != b]
-        rng.shuffle(pairs)
-        for a, b in pairs:
+    first = list(range(nm))
+    rng.shuffle(first)          # the misused model is drawn first (uniformly), then the kind of misuse
+    for a, kind in [(a_, k_) for a_ in first for k_ in order]:
+        others = [b_ for b_ in range(nm) if b_ != a]
+        rng.shuffle(others)
+        for b in others:
             A, B, sa, sb = models[a], models[b], state[a], state[b]
             pa, pb = A['pre'], B['pre']
 
@@ -339,6 +351,13 @@ def gen_misuse(rng, models, state):
                         dict(mk, op='get', e=tgt, how='get')]
             if kind == 'ambiguity_after_constraints' and A['kind'] == 'dro' and sa['st']:
                 return [dict(mk, op='amb', id='bad', m=pa + 'm')]
+            if kind == 'foreign_adapt_ldr' and A.get('ldr') and b_rv and pa + 'y' in sa['built'] and not sa.get('y_used'):
+                d_ = A['ldr']
+                tgt = rng.choice([['v', pa + 'y'], ['i', ['v', pa + 'y'], 0], ['i', ['v', pa + 'y'], [0, d_]]] +
+                                 ([['i', ['v', pa + 'y'], [1, d_]]] if d_ > 1 else []))
+                zb = pb + rng.choice(b_rv)
+                to = rng.choice([['v', zb], ['i', ['v', zb], [0, 1]]])
+                return [dict(mk, op='adapt', tgt=tgt, to=to)]
             if kind == 'foreign_adapt' and a_dv and b_rv and A['kind'] == 'dro' and not sa['st'] and 'y' in a_dv:
                 return [dict(mk, op='adapt', tgt=['v', pa + 'y'], to=['v', pb + rng.choice(b_rv)])]
     return None
